@@ -157,7 +157,7 @@ func NewWorld(dir string) *World {
 var Menu = []string{
 	"xfer", "xfer-new", "call-counter", "call-revert", "call-invalid", "call-forward", "call-fwdrevert", "call-destruct", "call-burn",
 	"create-ok", "create-revert", "create-oog", "vote-d0", "vote-c1", "register-u1-poor", "topup-c1", "unregister-c1",
-	"asset-issue", "asset-replenish", "asset-freeze", "asset-transfer", "multisig-xfer", "payer-xfer", "box-ok", "box-failing-sub",
+	"asset-issue", "asset-replenish", "asset-freeze", "asset-transfer", "multisig-xfer", "multisig-reset", "payer-xfer", "box-ok", "box-failing-sub",
 }
 
 // Discards are candidates an honest miner tries and discards (they never enter a block).
@@ -200,6 +200,11 @@ func (w *World) mkMenu() {
 	ms := node.Unsigned(node.TxSpec{Type: params.OrdinaryTx, From: U3, To: addrp(U2.Addr), Amount: node.Lemo(4), Exp: Exp})
 	t["multisig-xfer"] = node.SignWith(node.SignWith(ms, U0.Priv), U1.Priv)
 	t["multisig-one-signer"] = node.SignWith(ms, U0.Priv)
+	// the multi-signature account replaces its signers (U0:50 + U1:50 -> U1:50 + U2:50): afterwards
+	// multisig-xfer, signed by U0 + U1, no longer reaches the threshold
+	reset, _ := json.Marshal(map[string]interface{}{"signers": []map[string]interface{}{{"address": U1.Addr, "weight": 50}, {"address": U2.Addr, "weight": 50}}})
+	mr := node.Unsigned(node.TxSpec{Type: params.ModifySignersTx, From: U3, To: addrp(U3.Addr), Data: reset, Exp: Exp})
+	t["multisig-reset"] = node.SignWith(node.SignWith(mr, U0.Priv), U1.Priv)
 	// gas paid by somebody else
 	pt := types.NewReimbursementTransaction(U0.Addr, U1.Addr, Payer.Addr, node.Lemo(2), nil, params.OrdinaryTx, node.ChainID, Exp, "", "")
 	pt, _ = types.MakeReimbursementTxSigner().SignTx(pt, U0.Priv)
